@@ -7,7 +7,8 @@ SimExecutor (queueing) and SimScheduler, so each action of the specification is 
   Exec(t)        run the queued executor task with descriptor t; ControlConnection._reconnect and
                  _ControlReconnectionHandler.run are logical threads (DetSched) that stop where the query plan hands
                  out its next host and where _reconnect_internal returns the new connection
-  RcStep(r)      let the reconnection thread with descriptor r run to its next stop (or its end)
+  RcStep(r)      let the reconnection thread with descriptor r run to its next stop (or its end); a handler's run()
+                 also stops between its `if not self._cancelled` and _set_new_connection
   Fire(e)        the scheduler hands entry e to the executor
   Push           a FakeNode pushes an EVENT frame on an open, registered connection of the driver
   RingAdd/RingRemove   the membership every node reports changes, and NEW_NODE / REMOVED_NODE is pushed on every
@@ -33,16 +34,22 @@ import cassandra.pool as cpool
 from cassandra.cluster import ExecutionProfile, EXEC_PROFILE_DEFAULT
 from cassandra.policies import ConstantReconnectionPolicy, HostDistance, LoadBalancingPolicy
 
-TASK_FIELDS = ("k", "h", "x", "c")
-THREAD_FIELDS = ("via", "canc", "plan", "conn")
+TASK_FIELDS = ("k", "h", "x", "c", "a")
+THREAD_FIELDS = ("via", "canc", "att", "plan", "conn", "st")
 WINDOWS = {"topology_change": 2.0, "status_change": 1.0, "schema_change": 5.0}
 EVENT_TYPES = {"TOPOLOGY_CHANGE", "STATUS_CHANGE", "SCHEMA_CHANGE"}
 RECONNECT_DELAY = 1.0
 ENV_ACTIONS = ("Push", "RingAdd", "RingRemove", "NodeMode", "ConnDie", "Heartbeat")
 
 
-def T(k, h=0, x="", c=False):
-    return (k, h, x, bool(c))
+def T(k, h=0, x="", c=False, a=None):
+    """Task descriptor; a (CRecon only): the handler is the one ControlConnection._reconnection_handler refers to."""
+    return (k, h, x, bool(c), bool(k == "CRecon" and not c) if a is None else bool(a))
+
+
+def R(via, plan=(), conn=0, canc=False, att=None, st="run"):
+    """Descriptor of a control reconnection in flight."""
+    return (via, bool(canc), bool(via == "handler" and not canc) if att is None else bool(att), tuple(plan), conn, st)
 
 
 def task_tuple(rec):
@@ -54,7 +61,7 @@ def task_dict(t):
 
 
 def thread_tuple(rec):
-    return (rec["via"], bool(rec["canc"]), tuple(rec["plan"]), rec["conn"])
+    return (rec["via"], bool(rec["canc"]), bool(rec["att"]), tuple(rec["plan"]), rec["conn"], rec["st"])
 
 
 def thread_dict(r):
@@ -64,7 +71,7 @@ def thread_dict(r):
 
 
 NO_T = T("none")
-NO_R = ("", False, (), 0)
+NO_R = ("", False, False, (), 0, "run")
 
 
 def addr_of(h):
@@ -207,6 +214,14 @@ class EventsHarness:
                 h.ds.yield_point("set")
             return conn
         cc._reconnect_internal = reconnect_internal_with_stop
+        real_set = cc._set_new_connection
+
+        def set_new_connection_with_stop(conn):
+            th = h.ds.active
+            if th is not None and any(x["name"] == th.name and x["via"] == "handler" for x in h.threads):
+                h.ds.yield_point("install")
+            return real_set(conn)
+        cc._set_new_connection = set_new_connection_with_stop
         real_schema = cc._refresh_schema
 
         def refresh_schema_spy(connection, preloaded_results=None, schema_agreement_wait=None, force=False, **kwargs):
@@ -276,7 +291,7 @@ class EventsHarness:
             if name == "_reconnect" and isinstance(owner, ccluster.ControlConnection):
                 return T("Reconnect")
             if name == "run" and isinstance(owner, ccluster._ControlReconnectionHandler):
-                return T("CRecon", c=owner._cancelled)
+                return T("CRecon", c=owner._cancelled, a=owner is self.cc._reconnection_handler)
             if name == "run" and isinstance(owner, cpool._HostReconnectionHandler):
                 return T("HRecon", num_of(owner.host.address), c=owner._cancelled)
         except Exception as ex:          # a mutated driver may queue things of another shape
@@ -290,10 +305,12 @@ class EventsHarness:
         return [(self.describe(e[2][0], e[2][1], dict(e[2][2])), e) for e in self.sch.tasks]
 
     def _thread_desc(self, th):
-        canc = bool(th["handler"]._cancelled) if th["handler"] is not None else False
+        hd = th["handler"]
         it = self.plans.get(th["name"])
         conn = self.newconn.get(th["name"])
-        return (th["via"], canc, it.remaining() if it is not None else (), num_of(conn.endpoint.address) if conn is not None else 0)
+        return (th["via"], bool(hd._cancelled) if hd is not None else False,
+                hd is not None and hd is self.cc._reconnection_handler, it.remaining() if it is not None else (),
+                num_of(conn.endpoint.address) if conn is not None else 0, "inst" if th.get("at") == "install" else "run")
 
     # ------------------------------------------------------------------ actions
     def do(self, act):
@@ -308,7 +325,8 @@ class EventsHarness:
 
     def _advance(self, th):
         """Let a reconnection thread run to its next stop; forget it when it has ended."""
-        lab = self.ds.run_until(th["name"], lambda l: l in ("next", "set"))
+        lab = self.ds.run_until(th["name"], lambda l: l in ("next", "set", "install"))
+        th["at"] = lab
         if lab == "end":
             self.threads.remove(th)
             self.plans.pop(th["name"], None)
@@ -324,9 +342,9 @@ class EventsHarness:
         if want[0] in ("Reconnect", "CRecon"):
             owner = getattr(t.fn, "__self__", None)
             handler = owner if want[0] == "CRecon" else None
-            th = {"name": self._spawn("RC", self.ex.run, t), "via": "handler" if handler is not None else "direct",
-                  "handler": handler}
+            th = {"name": None, "via": "handler" if handler is not None else "direct", "handler": handler}
             self.threads.append(th)
+            th["name"] = self._spawn("RC", self.ex.run, t)
             self._advance(th)
             return
         self.ex.run(t)
@@ -665,7 +683,7 @@ def spec_view(state, consts=None):
     hosts = sorted(state["sc"]["hosts"] if consts is None else consts["Hosts"])
     rcs = _bag(cs["rcs"], thread_tuple)
     ctl = (cs["ctl"]["h"], cs["ctl"]["st"])
-    nopen = (1 if ctl[1] == "open" else 0) + sum(n for r, n in rcs.items() if r[3] != 0)
+    nopen = (1 if ctl[1] == "open" else 0) + sum(n for r, n in rcs.items() if r[4] != 0)
     return {"known": tuple(cs["known"]), "up": _fn(cs["up"], hosts), "lbp": frozenset(cs["lbp"]), "hrec": frozenset(cs["hrec"]),
             "ctl": ctl, "chand": cs["chand"], "exec": _bag(cs["exec"], task_tuple), "sched": _bag(cs["sched"], task_tuple),
             "rcs": rcs, "em": sorted((tuple(x) for x in cs["em"]), key=repr), "phase": state["phase"], "nopen": nopen,
